@@ -72,6 +72,19 @@ Theorem wn_prefilter_harmless : forall p t fs,
 Proof. exact Proofs.wn_prefilter_harmless. Qed.
 Print Assumptions wn_prefilter_harmless.
 
+(* the cone decision spelled out (strictness of every comparison); the angle part is the fixed-point
+   evaluation of  delta < sqrt((cut - r)/const) degrees  as  cos(delta) > cos(bound)  -- numerical *)
+Theorem wn_spec : forall p f d h a,
+  let a2 := dist2 (wn_periodic p) f d a in
+  let b2 := dist2 (wn_periodic p) f d h in
+  let c2 := dist2 (wn_periodic p) f h a in
+  wn_presence p f (d, h, a) = true <->
+  dist_lt a2 (fst (wn_cut p) * wn_G p) (snd (wn_cut p)) = true /\
+  0 < wn_slack p a2 /\ 0 < a2 * b2 /\
+  (PI_fx <= wn_phi p a2 \/ wn_cosphi (wn_phi p a2) < wn_cosd a2 b2 c2).
+Proof. exact Proofs.wn_spec. Qed.
+Print Assumptions wn_spec.
+
 (* the cone never accepts a donor-acceptor pair at or beyond the 0.33 nm apex distance (exact test) *)
 Theorem wn_cone_inside_cutoff : forall p f tr, wn_presence p f tr = true -> wn_close p f tr = true.
 Proof. exact wn_presence_close. Qed.
@@ -123,9 +136,9 @@ Proof. exact KsProofs.ks_h_position_refuted. Qed.
 Print Assumptions ks_h_position_refuted.
 
 (* minimal repair: the result of a frame is a function of that frame alone *)
-Theorem ks_h_position_fixed : forall G thr ca2 init rs xyz oob1 oob2,
-  kabsch_sander_frame (mkKS G h_fix thr ca2) init rs xyz oob1 =
-  kabsch_sander_frame (mkKS G h_fix thr ca2) init rs xyz oob2.
+Theorem ks_h_position_fixed : forall K G thr ca2 init rs xyz oob1 oob2,
+  kabsch_sander_frame (mkKS K G h_fix thr ca2) init rs xyz oob1 =
+  kabsch_sander_frame (mkKS K G h_fix thr ca2) init rs xyz oob2.
 Proof. exact ks_fix_frame_local. Qed.
 Print Assumptions ks_h_position_fixed.
 
